@@ -68,8 +68,16 @@ fn main() {
             }
             let mut run_rng = rng::Rng::new(seed ^ 0x5555);
             let mut written = 0usize;
+            // --vm: run every case once, in form "vm" (compiled code and interpreter steps recorded)
+            let vm_form = args.iter().any(|a| a == "--vm");
             {
-                let mut emit = |c: run::Case| {
+                let mut emit = |mut c: run::Case| {
+                    if vm_form {
+                        c.forms = vec!["vm".to_string()];
+                        if let Some(o) = c.extra.as_object_mut() {
+                            o.remove("child");
+                        }
+                    }
                     let o = run::run_case(&c, &mut run_rng);
                     writeln!(out, "{}", o).unwrap();
                     written += 1;
